@@ -122,6 +122,79 @@ def _history(case):
     return problems
 
 
+def _dl_case(case):
+    """downloads through file:// URLs (no network): the wrap mode, the recorded hash, the primary and the fallback URL"""
+    from mesonbuild.wrap import wrap
+    import pathlib, time
+    mode, primary, fallback, hash_ok = case
+    problems = []
+    with tempfile.TemporaryDirectory() as d:
+        sp = os.path.join(d, 'subprojects')
+        os.makedirs(sp)
+        srv = os.path.join(d, 'srv')
+        os.makedirs(srv)
+        src = os.path.join(d, 'src', 'pkg')
+        os.makedirs(src)
+        open(os.path.join(src, 'meson.build'), 'w').write("project('pkg')\n")
+        good = os.path.join(srv, 'good.tar.gz')
+        with tarfile.open(good, 'w:gz') as t:
+            t.add(src, arcname='.')
+        bad = os.path.join(srv, 'bad.tar.gz')
+        open(bad, 'wb').write(b'something else entirely')
+        h = hashlib.sha256(open(good, 'rb').read()).hexdigest()
+        url = {'good': pathlib.Path(good).as_uri(), 'bad': pathlib.Path(bad).as_uri(), 'missing': pathlib.Path(srv, 'nothing-here.tar.gz').as_uri()}
+        lines = ['[wrap-file]', 'directory = dl-1.0', 'lead_directory_missing = true', 'source_filename = dl-1.0.tar.gz', f'source_url = {url[primary]}',
+                 f'source_hash = {h if hash_ok else "0" * 64}']
+        if fallback != 'none':
+            lines.append(f'source_fallback_url = {url[fallback]}')
+        open(os.path.join(sp, 'dl.wrap'), 'w').write('\n'.join(lines) + '\n')
+        fetched = []
+        real = wrap.Resolver.get_data
+
+        def spy(self, u):
+            fetched.append(u)
+            return real(self, u)
+        wrap.Resolver.get_data = spy
+        real_sleep = time.sleep
+        time.sleep = lambda s_: None
+        try:
+            r = wrap.Resolver(d, 'subprojects', wrap_mode=getattr(wrap.WrapMode, mode))
+            try:
+                r.resolve('dl')
+                ok = True
+            except Exception:
+                ok = False
+        finally:
+            wrap.Resolver.get_data = real
+            time.sleep = real_sleep
+        usable = hash_ok and (primary == 'good' or fallback == 'good')
+        should = usable and mode != 'nodownload'
+        cached = os.path.exists(os.path.join(sp, 'packagecache', 'dl-1.0.tar.gz'))
+        unpacked = os.path.exists(os.path.join(sp, 'dl-1.0', 'meson.build'))
+        if mode == 'nodownload' and fetched:
+            problems.append(f'wrap_mode=nodownload but {len(fetched)} URL(s) were fetched: {[u.rsplit("/", 1)[-1] for u in fetched]}')
+        if ok != should:
+            problems.append(f'resolve {"succeeded" if ok else "failed"}, expected {"success" if should else "failure"}')
+        if not should and (cached or unpacked):
+            problems.append('an archive was cached or unpacked although the wrap must be refused')
+        if should and not unpacked:
+            problems.append('nothing unpacked')
+    return problems
+
+
+def _dl_chunk(chunk):
+    fails, nt = [], 0
+    for case in chunk:
+        nt += 1
+        try:
+            problems = _dl_case(case)
+        except Exception as ex:
+            problems = [f'harness: {type(ex).__name__}: {ex}']
+        for p in problems:
+            fails.append({'case': {'wrap_mode': case[0], 'primary_url': case[1], 'fallback_url': case[2], 'recorded_hash_ok': case[3]}, 'stage': 'download', 'detail': p})
+    return len(chunk), nt, fails
+
+
 def _history_chunk(chunk):
     fails, nt = [], 0
     for case in chunk:
@@ -144,9 +217,14 @@ def run(REG, tier, seed, jobs):
     ev2, nt2, fails2 = pmap(_history_chunk, chunked(iter(hist), 2), jobs)
     hpart = {'name': 'C10/bounded/one-resolver-many-wraps', 'function': 'Resolver.resolve x k on one Resolver (shared archive file name)', 'bound': f'{len(hist)} histories: <= {k} wraps naming the same archive, each recorded hash right/wrong, archive in packagefiles/packagecache',
              'evaluations': ev2, 'distinct_nontrivial': nt2, 'rule': 'non-trivial: the history mixes right and wrong recorded hashes', 'exhaustive': True, 'failures': fails2}
-    return {'parts': [hpart, {'name': 'C10/bounded/wrap-hash-and-cleanup', 'function': 'Resolver.resolve (nodownload, local archives)', 'bound': f'{len(cases)} cases: source hash right/wrong x patch none/good/not-an-archive x patch hash right/wrong x archive in packagefiles/packagecache; each followed by a second run',
+    dl = [(m, p_, f_, hk) for m in ('default', 'nodownload', 'forcefallback') for p_ in ('good', 'bad', 'missing') for f_ in ('none', 'good', 'bad') for hk in (True, False)]
+    ev3, nt3, fails3 = pmap(_dl_chunk, chunked(iter(dl), 3), jobs)
+    dpart = {'name': 'C10/bounded/download-through-file-urls', 'function': 'Resolver._download / _get_file_internal (file:// URLs, no network)', 'bound': f'{len(dl)} cases: wrap_mode default/nodownload/forcefallback x primary URL good/wrong-content/missing x fallback URL none/good/wrong-content x recorded hash right/wrong',
+             'evaluations': ev3, 'distinct_nontrivial': nt3, 'rule': 'every case', 'exhaustive': True, 'failures': fails3}
+    return {'parts': [dpart, hpart, {'name': 'C10/bounded/wrap-hash-and-cleanup', 'function': 'Resolver.resolve (nodownload, local archives)', 'bound': f'{len(cases)} cases: source hash right/wrong x patch none/good/not-an-archive x patch hash right/wrong x archive in packagefiles/packagecache; each followed by a second run',
                        'evaluations': ev, 'distinct_nontrivial': nt, 'rule': 'every case', 'exhaustive': True, 'failures': fails}]}
 
 
-CHECKS = {'C10/bounded/one-resolver-many-wraps': (_history_chunk, lambda c: (tuple(c['hash_ok_per_wrap']), c['location'])),
+CHECKS = {'C10/bounded/download-through-file-urls': (_dl_chunk, lambda c: (c['wrap_mode'], c['primary_url'], c['fallback_url'], c['recorded_hash_ok'])),
+          'C10/bounded/one-resolver-many-wraps': (_history_chunk, lambda c: (tuple(c['hash_ok_per_wrap']), c['location'])),
           'C10/bounded/wrap-hash-and-cleanup': (_wrap_chunk, lambda c: (c['source_hash_ok'], c['patch'], c['patch_hash_ok'], c['location']))}
